@@ -7,7 +7,7 @@ package main
 
 //@ func worker
 //@   requires source != nil && wg != nil && n >= 0
-//@   panics when oserr() || readfailed(source)
+//@   panics only when oserr() || readfailed(source)
 //@   modifies nothing
 //@   ghost done, pos, readfailed, reads, oserr
 //@   loop 1
